@@ -1,18 +1,299 @@
 (* C03 — managed attributes always satisfy their declared type on every
-   mutation route.  Model: coq/Inst/Model.v; proofs: coq/Inst/TypeProofs.v. *)
+   mutation route.  Model: coq/Inst/Model.v (owned by the instance model);
+   proofs: coq/Inst/TypeProofs.v.
+
+   Conformance is the model's executable `check_type FUEL` (its agreement with
+   a declarative relation is C15's business).  `check_type` recurses on the
+   ANNOTATION, so fuel only bounds annotation depth (FUEL = 64):
+   C03_fuel_irrelevant.
+
+   FULL STATEMENT (DESIGN §4 C03), kept here for reference:
+
+     Theorem C03_step_preserves : forall ct roots o s,
+       flat_table ct -> defaults_ok ct s -> args_fresh s o ->
+       TypeInv ct s -> TypeInv ct (snd (step ct roots o s)).
+
+   where TypeInv covers every managed attribute (collections included) and
+   args_fresh says that mutable argument objects are not already held by a
+   managed attribute (C03_alias_counterexample shows the statement is false
+   without it).  What is proved:
+   * C03_step_preserves_partial: the statement for EVERY operation and EVERY
+     class table, for the attributes whose annotation has no container
+     constructor (int/str/bool/None/Any, nested spec classes, Optional/Union of
+     those) — these need neither args_fresh nor defaults_ok — and hence the full
+     TypeInv for tables made of such attributes (C03_step_preserves_scalar_tables);
+   * for List/Dict/Set attributes: every write route checks first
+     (C03_checked_before_stored, C03_bad_value_rejected, C03_bad_element_rejected,
+     C03_bad_key_or_value_rejected), each inserter keeps the written cell
+     conforming (C03_*_inserter_keeps) and preserves the FULL TypeInv of a flat
+     table provided the written cell is viewed only under the attribute's own
+     annotation (C03_*_insert_preserves_TypeInv); element removal preserves it
+     under every view (C03_remove_preserves_TypeInv); the single instance write
+     preserves it when the stored value conforms (C03_store_preserves_TypeInv).
+   Missing for the full statement: the ownership invariant that discharges
+   `only_view` along whole operations (which cells a call may store where);
+   see docs/C03.md. *)
 From Coq Require Import List ZArith Bool Arith.
-From SC Require Import Base.Res Inst.Heap Inst.ClassTable Inst.Model Inst.TypeProofs.
+From SC Require Import Base.Res Base.PyList Inst.Heap Inst.ClassTable Inst.Model Inst.TypeProofs.
 Import ListNotations.
 Open Scope nat_scope.
 
-(* Every operation of the API preserves: each instance cell maps every managed
-   attribute with a simple annotation (int/str/bool/None/Any, nested spec class,
-   Optional/Union of those) to a conforming value.  All routes, all tables, no
-   freshness hypothesis (the check on such annotations is alias-insensitive). *)
-Theorem C03_step_preserves_simple :
+(* ---------------- 1. checked before stored ---------------- *)
+Theorem C03_checked_before_stored :
+  forall ct rec s l a v inplace force skip c d k sp r s',
+    nth_error (heap s) l = Some (OInst c d) -> lookup_cls ct c = Some k ->
+    lookup_attr k a = Some sp -> is_sentinel v = false ->
+    mutate_attr ct rec l a v inplace true force skip s = (Ok r, s') ->
+    check_type FUEL ct (heap s) v (a_ty sp) = true.
+Proof. exact mutate_attr_checked. Qed.
+
+Theorem C03_bad_value_rejected :
+  forall ct rec s l a v inplace force skip c d k sp,
+    nth_error (heap s) l = Some (OInst c d) -> lookup_cls ct c = Some k ->
+    lookup_attr k a = Some sp -> is_sentinel v = false ->
+    check_type FUEL ct (heap s) v (a_ty sp) = false ->
+    exists e, mutate_attr ct rec l a v inplace true force skip s = (Err e, s)
+              /\ (e = TypeErr \/ e = FrozenErr).
+Proof. exact mutate_attr_rejects. Qed.
+
+Theorem C03_bad_element_rejected :
+  forall ct s sp coll index item,
+    check_type FUEL ct (heap s) item (item_type (a_ty sp)) = false ->
+    (forall ins, seq_inserter ct sp coll index item ins s = (Err ValueErr, s)) /\
+    set_inserter ct sp coll index item s = (Err ValueErr, s).
+Proof.
+  intros. split; [intro; now apply seq_inserter_rejects|now apply set_inserter_rejects].
+Qed.
+
+Theorem C03_bad_key_or_value_rejected :
+  forall ct s sp coll key item,
+    check_type FUEL ct (heap s) key (key_type (a_ty sp)) = false \/
+    check_type FUEL ct (heap s) item (item_type (a_ty sp)) = false ->
+    map_inserter ct sp coll key item s = (Err ValueErr, s).
+Proof. exact map_inserter_rejects. Qed.
+
+Theorem C03_element_checked_before_stored :
+  forall ct s sp coll index item,
+    (forall ins u s', seq_inserter ct sp coll index item ins s = (Ok u, s') ->
+       check_type FUEL ct (heap s) item (item_type (a_ty sp)) = true) /\
+    (forall u s', set_inserter ct sp coll index item s = (Ok u, s') ->
+       check_type FUEL ct (heap s) item (item_type (a_ty sp)) = true) /\
+    (forall u s', map_inserter ct sp coll index item s = (Ok u, s') ->
+       check_type FUEL ct (heap s) index (key_type (a_ty sp)) = true /\
+       check_type FUEL ct (heap s) item (item_type (a_ty sp)) = true).
+Proof.
+  intros. split; [|split]; intros.
+  - eapply seq_inserter_checked; eauto.
+  - eapply set_inserter_checked; eauto.
+  - eapply map_inserter_checked; eauto.
+Qed.
+
+(* ---------------- 2. the invariant ---------------- *)
+(* every operation, every table: attributes with container-free annotations *)
+Theorem C03_step_preserves_partial :
   forall ct roots o s,
     no_reserved_names ct -> op_plain o ->
-    TS ct (heap s) -> TS ct (heap (snd (step ct roots o s))).
+    TInvP simple ct (heap s) -> TInvP simple ct (heap (snd (step ct roots o s))).
 Proof. intros ct roots o s Hr Hp T. apply (step_preserves_TS ct roots o s Hr Hp T). Qed.
 
-Print Assumptions C03_step_preserves_simple.
+(* hence the full invariant for tables made of such attributes *)
+Theorem C03_step_preserves_scalar_tables :
+  forall ct roots o s,
+    all_simple ct -> no_reserved_names ct -> op_plain o ->
+    TypeInv ct s -> TypeInv ct (snd (step ct roots o s)).
+Proof.
+  intros ct roots o s Ha Hr Hp T. apply (TS_all_simple ct _ Ha). apply (TS_all_simple ct _ Ha) in T.
+  apply (step_preserves_TS ct roots o s Hr Hp T).
+Qed.
+
+(* cells are never dropped and keep their kind and class (used above; also says
+   that in-place mutation of a nested instance cannot invalidate a container
+   holding it: TSpec only looks at the class) *)
+Theorem C03_cells_keep_their_class :
+  forall ct roots o s,
+    no_reserved_names ct -> op_plain o -> TInvP simple ct (heap s) ->
+    ext (heap s) (heap (snd (step ct roots o s))).
+Proof. intros ct roots o s Hr Hp T. apply (step_preserves_TS ct roots o s Hr Hp T). Qed.
+
+(* the copy made by deepcopy has the class of the original, so it conforms to
+   every container-free annotation the original conforms to *)
+Theorem C03_copy_conforms :
+  forall ct v s r s' t,
+    TInvP simple ct (heap s) -> deepcopy ct v s = (Ok r, s') -> simple t = true ->
+    check_type FUEL ct (heap s) v t = true -> check_type FUEL ct (heap s') r t = true.
+Proof.
+  intros ct v s r s' t T H St C.
+  destruct (deepcopy_hoare ct v s I T) as [E [_ R]]. rewrite H in E, R. cbn [fst snd] in E, R.
+  eapply rsame_check; eauto. eapply check_simple_ext; eauto.
+Qed.
+
+(* ---------------- 3. collections: single writes and the full invariant ---------------- *)
+Theorem C03_list_inserter_keeps :
+  forall ct s sp c index item ins u s' e,
+    a_ty sp = TList e -> simple e = true -> shallow (a_ty sp) ->
+    check_type FUEL ct (heap s) (VRef c) (TList e) = true ->
+    seq_inserter ct sp (VRef c) index item ins s = (Ok u, s') ->
+    check_type FUEL ct (heap s') (VRef c) (TList e) = true.
+Proof. exact seq_inserter_keeps. Qed.
+
+Theorem C03_dict_inserter_keeps :
+  forall ct s sp c key item u s' k e,
+    a_ty sp = TDict k e -> simple k = true -> simple e = true -> shallow (a_ty sp) ->
+    check_type FUEL ct (heap s) (VRef c) (TDict k e) = true ->
+    map_inserter ct sp (VRef c) key item s = (Ok u, s') ->
+    check_type FUEL ct (heap s') (VRef c) (TDict k e) = true.
+Proof. exact map_inserter_keeps. Qed.
+
+Theorem C03_set_inserter_keeps :
+  forall ct s sp c index item u s' e,
+    a_ty sp = TSet e -> simple e = true -> shallow (a_ty sp) ->
+    check_type FUEL ct (heap s) (VRef c) (TSet e) = true ->
+    set_inserter ct sp (VRef c) index item s = (Ok u, s') ->
+    check_type FUEL ct (heap s') (VRef c) (TSet e) = true.
+Proof. exact set_inserter_keeps. Qed.
+
+Theorem C03_list_insert_preserves_TypeInv :
+  forall ct, flat_table ct -> forall s sp c index item ins r s' e,
+    a_ty sp = TList e -> simple e = true -> shallow (a_ty sp) ->
+    TI ct (heap s) -> check_type FUEL ct (heap s) (VRef c) (TList e) = true ->
+    only_view ct (heap s) c (TList e) ->
+    seq_inserter ct sp (VRef c) index item ins s = (r, s') -> TI ct (heap s').
+Proof. exact seq_inserter_preserves_TI. Qed.
+
+Theorem C03_dict_insert_preserves_TypeInv :
+  forall ct, flat_table ct -> forall s sp c key item r s' k e,
+    a_ty sp = TDict k e -> simple k = true -> simple e = true -> shallow (a_ty sp) ->
+    TI ct (heap s) -> check_type FUEL ct (heap s) (VRef c) (TDict k e) = true ->
+    only_view ct (heap s) c (TDict k e) ->
+    map_inserter ct sp (VRef c) key item s = (r, s') -> TI ct (heap s').
+Proof. exact map_inserter_preserves_TI. Qed.
+
+Theorem C03_set_insert_preserves_TypeInv :
+  forall ct, flat_table ct -> forall s sp c index item r s' e,
+    a_ty sp = TSet e -> simple e = true -> shallow (a_ty sp) ->
+    TI ct (heap s) -> check_type FUEL ct (heap s) (VRef c) (TSet e) = true ->
+    only_view ct (heap s) c (TSet e) ->
+    set_inserter ct sp (VRef c) index item s = (r, s') -> TI ct (heap s').
+Proof. exact set_inserter_preserves_TI. Qed.
+
+Theorem C03_remove_preserves_TypeInv :
+  forall ct, flat_table ct -> forall h c,
+    TI ct h ->
+    (forall xs n, nth_error h c = Some (OList xs) -> TI ct (set_nth c (OList (remove_at n xs)) h)) /\
+    (forall xs g, nth_error h c = Some (ODict xs) -> TI ct (set_nth c (ODict (filter g xs)) h)) /\
+    (forall xs g, nth_error h c = Some (OSet xs) -> TI ct (set_nth c (OSet (filter g xs)) h)).
+Proof.
+  intros ct Hf h c T. split; [|split]; intros.
+  - eapply TI_shrink_list; eauto. intros; now apply forallb_remove_at.
+  - eapply TI_shrink_dict; eauto. intros; now apply forallb_filter.
+  - eapply TI_shrink_set; eauto. intros; now apply forallb_filter.
+Qed.
+
+Theorem C03_store_preserves_TypeInv :
+  forall ct, flat_table ct -> forall s l a v c d r s',
+    nth_error (heap s) l = Some (OInst c d) -> TI ct (heap s) ->
+    (forall k sp, lookup_cls ct c = Some k -> lookup_attr k a = Some sp ->
+                  check_type FUEL ct (heap s) v (a_ty sp) = true) ->
+    raw_setattr l a v s = (r, s') -> TI ct (heap s').
+Proof. exact raw_setattr_preserves_TI. Qed.
+
+Theorem C03_delete_preserves_TypeInv :
+  forall ct, flat_table ct -> forall s l a r s',
+    TI ct (heap s) -> raw_delattr l a s = (r, s') -> TI ct (heap s').
+Proof. exact raw_delattr_preserves_TI. Qed.
+
+(* ---------------- 4. fuel ---------------- *)
+Theorem C03_fuel_irrelevant :
+  forall ct h t v f f', ty_depth t < f -> f <= f' ->
+    check_type f' ct h v t = check_type f ct h v t.
+Proof. intros. now apply check_fuel_mono. Qed.
+
+(* ---------------- 5. non-vacuity ---------------- *)
+Definition exA1 := mkattr 1 TInt VMissing None 1 true false None None [].
+Definition exA50 := mkattr 50 (TList TInt) VMissing None 1 true false None None [].
+Definition exA60 := mkattr 60 (TList TStr) VMissing None 1 true false None None [].
+Definition exCT : ctable := [mkcls 1 [exA1; exA50; exA60] false false None [1] 1 [] None None].
+Definition exH : list obj := [OInst 1 [(1, VInt 3%Z); (50, VRef 1)]; OList [VInt 1%Z]].
+Definition exS := mkst exH 0 None.
+Definition exArgs (pos : list val) (inplace : bool) := mkh pos inplace true VMissing false None None [] None.
+Definition exRun (ops : list op) (s : state) : state :=
+  fold_left (fun s o => snd (step exCT [VRef 0] o s)) ops s.
+
+(* a conforming assignment succeeds and the invariant holds before and after *)
+Example C03_conforming_assignment :
+  let r := step exCT [VRef 0] (OpSetAttr 0 1 (VInt 5%Z)) exS in
+  ti_b exCT exH = true /\ fst r = Ok VNone /\
+  heap (snd r) = [OInst 1 [(1, VInt 5%Z); (50, VRef 1)]; OList [VInt 1%Z]] /\
+  ti_b exCT (heap (snd r)) = true.
+Proof. vm_compute. repeat split. Qed.
+
+(* a conforming element goes in through the copy-on-write helper *)
+Example C03_conforming_element :
+  let r := step exCT [VRef 0] (OpHelper 0 (HWithItem 50) (exArgs [VInt 7%Z] false)) exS in
+  fst r = Ok (VRef 3) /\ nth_error (heap (snd r)) 2 = Some (OList [VInt 1%Z; VInt 7%Z]) /\
+  ti_b exCT (heap (snd r)) = true.
+Proof. vm_compute. repeat split. Qed.
+
+(* an ill-typed element is rejected with ValueError and the heap is unchanged *)
+Example C03_ill_typed_element_rejected :
+  let r := step exCT [VRef 0] (OpHelper 0 (HWithItem 50) (exArgs [VStr 7%Z] true)) exS in
+  fst r = Err ValueErr /\ heap (snd r) = exH.
+Proof. vm_compute. split; reflexivity. Qed.
+
+(* an ill-typed scalar is rejected with TypeError and the heap is unchanged *)
+Example C03_ill_typed_value_rejected :
+  let r := step exCT [VRef 0] (OpSetAttr 0 1 (VStr 7%Z)) exS in
+  fst r = Err TypeErr /\ heap (snd r) = exH.
+Proof. vm_compute. split; reflexivity. Qed.
+
+(* why args_fresh is needed: ONE empty list assigned to a List[int] and to a
+   List[str] attribute (both assignments are accepted, the invariant still
+   holds), then extended in place through the first: the second attribute
+   now holds [7] although every check of the library passed *)
+Example C03_alias_counterexample :
+  let h1 := [OInst 1 [(1, VInt 3%Z)]; OList []] in
+  let s2 := exRun [OpSetAttr 0 50 (VRef 1); OpSetAttr 0 60 (VRef 1)] (mkst h1 0 None) in
+  let r := step exCT [VRef 0] (OpHelper 0 (HWithItem 50) (exArgs [VInt 7%Z] true)) s2 in
+  ti_b exCT (heap s2) = true /\ fst r = Ok (VRef 0) /\
+  heap (snd r) = [OInst 1 [(1, VInt 3%Z); (50, VRef 1); (60, VRef 1)]; OList [VInt 7%Z]] /\
+  ti_b exCT (heap (snd r)) = false.
+Proof. vm_compute. repeat split. Qed.
+
+Corollary C03_full_statement_needs_args_fresh :
+  exists ct roots o s, flat_table ct /\ TypeInv ct s /\ ~ TypeInv ct (snd (step ct roots o s)).
+Proof.
+  exists exCT, [VRef 0], (OpHelper 0 (HWithItem 50) (exArgs [VInt 7%Z] true)),
+    (exRun [OpSetAttr 0 50 (VRef 1); OpSetAttr 0 60 (VRef 1)] (mkst [OInst 1 [(1, VInt 3%Z)]; OList []] 0 None)).
+  split; [|split].
+  - intros c k sp Hk Hi. unfold lookup_cls in Hk. apply find_some in Hk. destruct Hk as [Hin _].
+    simpl in Hin. destruct Hin as [<-|[]]. simpl in Hi.
+    destruct Hi as [<-|[<-|[<-|[]]]]; reflexivity.
+  - apply ti_b_iff. vm_compute. reflexivity.
+  - intro H. apply ti_b_iff in H. vm_compute in H. discriminate.
+Qed.
+
+Print Assumptions C03_checked_before_stored.
+Print Assumptions C03_bad_value_rejected.
+Print Assumptions C03_bad_element_rejected.
+Print Assumptions C03_bad_key_or_value_rejected.
+Print Assumptions C03_element_checked_before_stored.
+Print Assumptions C03_step_preserves_partial.
+Print Assumptions C03_step_preserves_scalar_tables.
+Print Assumptions C03_cells_keep_their_class.
+Print Assumptions C03_copy_conforms.
+Print Assumptions C03_list_inserter_keeps.
+Print Assumptions C03_dict_inserter_keeps.
+Print Assumptions C03_set_inserter_keeps.
+Print Assumptions C03_list_insert_preserves_TypeInv.
+Print Assumptions C03_dict_insert_preserves_TypeInv.
+Print Assumptions C03_set_insert_preserves_TypeInv.
+Print Assumptions C03_remove_preserves_TypeInv.
+Print Assumptions C03_store_preserves_TypeInv.
+Print Assumptions C03_delete_preserves_TypeInv.
+Print Assumptions C03_fuel_irrelevant.
+Print Assumptions C03_conforming_assignment.
+Print Assumptions C03_conforming_element.
+Print Assumptions C03_ill_typed_element_rejected.
+Print Assumptions C03_ill_typed_value_rejected.
+Print Assumptions C03_alias_counterexample.
+Print Assumptions C03_full_statement_needs_args_fresh.
